@@ -110,6 +110,22 @@ CHECKS.update({
              'the accepted LANGUAGE is proved); strings over code points <= '
              '0x2FFFF; pyvc, z3.',
         ref='DESIGN.md section 4 C10'),
+    'C14': dict(
+        text='bool_from_string, int_from_bool_as_string, is_valid_boolstr, '
+             'is_int_like, validate_integer, check_string_length and the '
+             'exception flow of is_uuid_like proved for symbolic str / int / '
+             'other arguments with str.strip, str.lower, str(), int() as '
+             'uninterpreted operators shared by code and contract (so the '
+             'classification holds for every interpretation of them), word '
+             'tables compared with the documented lists, numeric bounds '
+             'symbolic. Bounded stand-in for the clauses that depend on the '
+             'meaning of those operators and of uuid.UUID: documented words x '
+             'case x padding, integer literals around bounds, hex strings of '
+             'length 30..34 in 7 decorations, generate_uuid draws.',
+        note='A-STDLIB-INT (int(str(n)) == n, str(n) canonical), A-UUID '
+             '(uuid.UUID raises only TypeError/ValueError/AttributeError); '
+             'pyvc, z3.',
+        ref='DESIGN.md section 4 C14'),
     'C05': dict(
         text='len(region.data) <= region.length is preserved by both capture '
              'methods for any chunk; every fixed-layout inspector has the '
